@@ -2,7 +2,7 @@
 from __future__ import annotations
 
 import ast
-from typing import List, Tuple
+from typing import List, Optional, Tuple
 
 from ..cfg import cfg_of
 from ..model import Func, attr_tail, dotted, norm, walk
@@ -23,23 +23,36 @@ TRUSTED = ["CPython ast parser", "sa.cfg paths/dominators", "sa.resolve (Worker.
 REG_LISTS = ("files", "emptyfiles")
 
 
-def _registrations(f: Func) -> List[Tuple[str, ast.Call]]:
+def _registrations(f: Func, ctx: Optional[Ctx] = None) -> List[Tuple[str, ast.Call]]:
+    """(registry, node in f) for every member registration performed by f, directly or inside a private helper (attributed to the helper call)."""
     out = []
-    for c in q.calls(f):
-        if isinstance(c.func, ast.Attribute) and c.func.attr == "append":
-            tgt = norm(c.func.value)
+    items = q.deep_nodes(ctx, f, depth=1) if ctx is not None else ((f, n, None) for n in walk(f.node))
+    for g, c, via in items:
+        if isinstance(c, ast.Call) and isinstance(c.func, ast.Attribute) and c.func.attr == "append":
+            tgt = q.chain(g, c.func.value)
+            at = via if via is not None else c
+            if via is not None and attr_tail(via) in ("archive", "initialize"):
+                continue
             if tgt.endswith("files_info.files"):
-                out.append(("files_info.files", c))
+                out.append(("files_info.files", at))
             elif tgt.endswith("files_info.emptyfiles"):
-                out.append(("files_info.emptyfiles", c))
+                out.append(("files_info.emptyfiles", at))
             elif tgt == "self.files":
-                out.append(("self.files", c))
+                out.append(("self.files", at))
     return out
 
 
-def _undoes(h: ast.ExceptHandler) -> set:
+def _undoes(h: ast.ExceptHandler, ctx: Optional[Ctx] = None, f: Optional[Func] = None) -> set:
     undone = set()
-    for n in ast.walk(h):
+    nodes = list(ast.walk(h))
+    if ctx is not None and f is not None:
+        # statements of private helpers called from the handler count as the handler's own
+        for c in [x for x in ast.walk(h) if isinstance(x, ast.Call)]:
+            for tq in shared.targets_of(ctx, f, c):
+                g = ctx.res._func_by_q(tq)
+                if g is not None and g.module == f.module and g.cls == f.cls:
+                    nodes += list(walk(g.node))
+    for n in nodes:
         if isinstance(n, ast.Call) and isinstance(n.func, ast.Attribute) and n.func.attr in ("pop", "remove", "rollback", "discard_last"):
             t = norm(n.func.value)
             for key in ("files_info.files", "files_info.emptyfiles", "self.files"):
@@ -60,7 +73,7 @@ def r15_1(ctx: Ctx) -> None:
     for name in ("write", "_writef"):
         f = shared.szf(ctx, name)
         cfg = cfg_of(f.node)
-        regs = _registrations(f)
+        regs = _registrations(f, ctx)
         arch = [c for c in q.calls(f) if "py7zr:Worker.archive" in shared.targets_of(ctx, f, c)]
         ctx.floor("R15.1", len(arch), 1, f"Worker.archive call in {name}")
         ctx.floor("R15.1", len(regs), 3, f"member registrations in {name}")
@@ -81,7 +94,7 @@ def r15_1(ctx: Ctx) -> None:
                     if not names & {"Exception", "BaseException"}:
                         why = "the handler around Worker.archive is not a catch-all"
                         continue
-                    undone = _undoes(h)
+                    undone = _undoes(h, ctx, f)
                     hn = cfg.by_ast[h]
                     reraises = cfg.exit not in cfg.reachable_from(hn) and any(isinstance(x, ast.Raise) for x in ast.walk(h))
                     need = {k for k, _ in before}
@@ -141,10 +154,60 @@ def r15_2(ctx: Ctx) -> None:
         ctx.check(ok, "R15.2", w, i, "write: name sanitiser runs before header.initialize", "write() initialises the header before the name is validated")
     # the record is built (lstat may fail) before registration
     mk = [c for c in q.calls(w) if attr_tail(c) == "_make_file_info"]
-    regs = _registrations(w)
+    regs = _registrations(w, ctx)
     for m in mk:
         ok = all(wcfg.dominates(q.node_for(w, m), q.node_for(w, r)) for _, r in regs)
         ctx.check(ok, "R15.2", w, m, "write: member record built before registration", "write() registers a member before its record (stat) is complete")
+
+
+def r15_4(ctx: Ctx) -> None:
+    """the member cursor of the worker advances only after the fallible source access succeeded."""
+    f = ctx.prog.func("py7zr", "Worker.archive")
+    cfg = cfg_of(f.node)
+    incs = [n for n in walk(f.node) if isinstance(n, (ast.AugAssign, ast.Assign)) and q.chain(f, n.target if isinstance(n, ast.AugAssign) else n.targets[0]) == "self.current_file_index"]
+    fallible = [c for c in q.calls(f) if any(t in ("py7zr:Worker.write", "py7zr:Worker.writestr") for t in shared.targets_of(ctx, f, c))]
+    ctx.floor("R15.4", len(incs), 1, "advance of Worker.current_file_index")
+    ctx.floor("R15.4", len(fallible), 2, "fallible source accesses in Worker.archive")
+    for i in incs:
+        late = [c for c in fallible if cfg.reaches(q.node_for(f, i), q.node_for(f, c))]
+        ctx.check(not late, "R15.4", f, i, "the member cursor advances only after the source was archived",
+                  "Worker.archive advances current_file_index before the source is opened/compressed: after a failed (and rolled back) write the cursor is one ahead of the "
+                  "member list, so every later write raises IndexError and the members are lost")
+    # and it advances on every normal path (a member without a stream still moves the cursor)
+    ok = cfg.every_path_to_exit_passes(cfg.entry, [q.node_for(f, i) for i in incs])
+    ctx.check(ok, "R15.4", f, f.node, "the member cursor advances on every successful path", "some successful path through Worker.archive does not advance current_file_index", construct="cursor advance paths")
+    # flush at close: the last-member bookkeeping tolerates a session without surviving members
+    fa = ctx.prog.func("py7zr", "Worker.flush_archive")
+    subs = [n for n in walk(fa.node) if isinstance(n, ast.Subscript) and isinstance(n.slice, ast.Attribute) and n.slice.attr == "last_file_index"]
+    ctx.floor("R15.4", len(subs), 1, "files[last_file_index] accesses in flush_archive")
+    for s_ in subs:
+        facts = [(norm(cd), pol) for cd, pol in q.facts_at(fa, s_)]
+        ok = any(pol and ("len(self.files) > 0" == cd or cd in ("self.files", "len(self.files)")) or (cd.endswith("last_file_index >= 0") and pol) for cd, pol in facts)
+        ctx.check(ok, "R15.4", fa, s_, "files[last_file_index] only when a member exists",
+                  "flush_archive indexes files[last_file_index] without checking that any member exists: a session in which every write failed (nothing registered) makes close() raise "
+                  "IndexError and leaves an invalid file instead of a valid empty archive")
+
+
+def r15_5(ctx: Ctx) -> None:
+    """the rollback handler only covers the fallible archive call: nothing that can fail BEFORE the registrations is inside its try."""
+    for name in ("write", "_writef"):
+        f = shared.szf(ctx, name)
+        regs = _registrations(f, ctx)
+        for tr in [n for n in walk(f.node) if isinstance(n, ast.Try)]:
+            handlers = [h for h in tr.handlers if _undoes(h, ctx, f)]
+            if not handlers:
+                continue
+            inside = [r for _, r in regs if any(r in list(ast.walk(st)) for st in tr.body)]
+            before_fallible = []
+            for st in tr.body:
+                if any(r in list(ast.walk(st)) for _, r in regs):
+                    break
+                if any(isinstance(x, ast.Call) for x in ast.walk(st)):
+                    before_fallible.append(st)
+            partial = bool(inside) and (bool(before_fallible) or len(inside) > 0)
+            ctx.check(not inside, "R15.5", f, tr, f"{name}: registrations precede the protected region",
+                      f"{name}: the try whose handler un-registers the member also contains the registration itself (and `{norm(before_fallible[0])[:60] if before_fallible else 'the registrations'}`): "
+                      "when a step before the registration fails (e.g. stat of a missing source) the handler pops a PREVIOUS, good member", construct=f"{name} rollback scope")
 
 
 def r15_3(ctx: Ctx) -> None:
@@ -159,3 +222,5 @@ def run(ctx: Ctx) -> None:
     r15_1(ctx)
     r15_2(ctx)
     r15_3(ctx)
+    r15_4(ctx)
+    r15_5(ctx)
